@@ -10,7 +10,7 @@
 (*   n     name without sigil ("" = unnamed global/function; attribute     *)
 (*         groups and metadata nodes are named by their decimal ID)        *)
 (*   body  type: "struct" | "opaque" | "alias"; func: "decl" | "def" |     *)
-(*         "resolver"; md: "tuple" | "distinct"; otherwise ""              *)
+(*         "resolver"; md: "tuple" | "distinct" | "di"; otherwise ""       *)
 (*   refs  references made by the entity outside function bodies           *)
 (*   locals (func def) parameters, blocks and instructions in layout order *)
 (*         [n, lk, refs], lk in "param" "block" "inst" "void"              *)
@@ -40,6 +40,7 @@ Attr(n)          == Ent("attr", n, "", <<>>, <<>>)
 NamedMd(n, refs) == Ent("nmd", n, "", refs, <<>>)
 Md(n, refs)      == Ent("md", n, "tuple", refs, <<>>)
 MdDistinct(n, refs) == Ent("md", n, "distinct", refs, <<>>)
+MdDI(n, refs)    == Ent("md", n, "di", refs, <<>>)          \* a specialised node: !DIDerivedType(baseType: .., scope: ..)
 Ulo(to)          == Ent("ulo", "", "", <<Ref("g.ulo", to)>>, <<>>)
 UloBB(f, b)      == Ent("ulobb", "", "", <<RefX("l.ulobb", f, b)>>, <<>>)
 
@@ -50,7 +51,7 @@ RefClass(rk) ==
                "g.mdvalue", "g.ulo"} -> "glob"
     [] rk \in {"c.global", "c.func"} -> "comdat"
     [] rk \in {"a.func", "a.call"} -> "attr"
-    [] rk \in {"m.attach", "m.tuple", "m.named"} -> "md"
+    [] rk \in {"m.attach", "m.tuple", "m.named", "m.difield"} -> "md"
     [] rk \in {"l.operand", "l.target", "l.phipred"} -> "local"
     [] rk \in {"l.baddr", "l.ulobb"} -> "block"      \* to = function, aux = block
 \* references that are part of the scaffold (resolved when the global entity is created)
@@ -123,7 +124,10 @@ Patterns == <<
   << Decl("f", <<Ref("a.func", "7")>>), Attr("0") >>,
   \* 13: one entity of every index (every phase of the translator has work)
   << TStruct("a", <<>>), Comdat("c"), Attr("1"), NamedMd("m", <<Ref("m.named", "0")>>), Md("0", <<>>),
-     Global("g", <<Ref("ty.global", "a"), Ref("c.global", "c"), Ref("m.attach", "0")>>), Decl("f", <<Ref("a.func", "1")>>) >>
+     Global("g", <<Ref("ty.global", "a"), Ref("c.global", "c"), Ref("m.attach", "0")>>), Decl("f", <<Ref("a.func", "1")>>) >>,
+  \* 14: specialised debug-info nodes referring to each other (forward reference, cycle through a distinct node)
+  << NamedMd("m", <<Ref("m.named", "2")>>), MdDI("2", <<Ref("m.difield", "7"), Ref("m.difield", "1")>>),
+     MdDI("1", <<Ref("m.difield", "7")>>), MdDI("7", <<>>), Md("0", <<Ref("m.tuple", "2")>>) >>
 >>
 
 \* Patterns outside LLVM's own grammar that the parser accepts (type aliases); kept apart because
